@@ -283,6 +283,11 @@ class PulserData:
                 else samples.trajectory.interaction_matrix.as_tensor()
             )
 
+            if full_interaction_matrix.dim() == 3:
+                # pulser-core >= 1.9 packs the matrices as (1, N, N) for the Rydberg
+                # interaction and (2, N, N) = (C3, C6) for XY: the emulated one comes first
+                full_interaction_matrix = full_interaction_matrix[0]
+
             full_interaction_matrix = full_interaction_matrix.clone()
 
             full_interaction_matrix[
